@@ -44,8 +44,20 @@ func (b *simBucket) IsInitialized(context.Context, bun.IDB) (bool, error) {
 	b.sim.EnsureBucket(b.name)
 	return true, nil
 }
-func (b *simBucket) IsUpToDate(context.Context, bun.IDB) (bool, error)        { return true, nil }
-func (b *simBucket) HasMinimalVersion(context.Context, bun.IDB) (bool, error) { return true, nil }
+func (b *simBucket) IsUpToDate(context.Context, bun.IDB) (bool, error) { return true, nil }
+
+// HasMinimalVersion is what the API's ledger middleware asks (through IsDatabaseUpToDate) before it runs a handler,
+// once per ledger and process. The real bucket reads the migrations table; here the answer is known but the round
+// trip is kept, so that the request still meets the database (a scheduling point, a fault position) between the
+// resolution of its ledger and its handler.
+func (b *simBucket) HasMinimalVersion(ctx context.Context, db bun.IDB) (bool, error) {
+	if db != nil {
+		if _, err := db.ExecContext(ctx, "select 1"); err != nil {
+			return false, err
+		}
+	}
+	return true, nil
+}
 func (b *simBucket) GetLastVersion(context.Context, bun.IDB) (int, error) {
 	return bucket.MinimalSchemaVersion, nil
 }
